@@ -16,7 +16,7 @@ type node struct {
 
 func primary(n *node) bool {
 	switch n.K {
-	case "probe", "var", "glob", "rec", "mem", "idx", "optmem":
+	case "probe", "var", "glob", "rec", "mem", "idx", "optmem", "hcall", "gdef":
 		return true
 	case "lit", "comma":
 		return true // Val.JS parenthesises negative numbers itself; a comma expression is rendered in parentheses
@@ -34,7 +34,7 @@ func operand(n *node) string {
 // base of a member expression: literals need parentheses (1.k is a syntax error)
 func memberBase(n *node) string {
 	switch n.K {
-	case "probe", "var", "glob", "rec", "mem", "idx":
+	case "probe", "var", "glob", "rec", "mem", "idx", "hcall", "gdef":
 		return expr(n)
 	}
 	return "(" + expr(n) + ")"
@@ -50,7 +50,13 @@ func expr(n *node) string {
 			args = append(args, operand(&n.A[i]))
 		}
 		return "p(" + strings.Join(args, ", ") + ")"
-	case "var", "glob", "rec":
+	case "hcall":
+		args := []string{}
+		for i := range n.A {
+			args = append(args, operand(&n.A[i]))
+		}
+		return n.Op + "(" + strings.Join(args, ", ") + ")"
+	case "var", "glob", "rec", "gdef":
 		return n.Op
 	case "un":
 		return n.Op + " " + operand(&n.A[0])
@@ -76,7 +82,7 @@ func expr(n *node) string {
 
 func simpleStmt(n *node) bool {
 	switch n.K {
-	case "expr", "ret", "throw", "break", "continue", "empty":
+	case "expr", "ret", "throw", "break", "continue", "empty", "debugger":
 		return true
 	}
 	return false
@@ -109,6 +115,8 @@ func stmt(n *node, ind string) string {
 		return e + ";"
 	case "empty":
 		return ";"
+	case "debugger":
+		return "debugger;"
 	case "ret":
 		if len(n.A) == 0 {
 			return "return;"
@@ -246,6 +254,12 @@ func (o *outcome) canonical() string {
 				s += "," + a.Ser()
 			}
 			parts = append(parts, s+")")
+		case "f", "console.log":
+			args := []string{}
+			for _, a := range e.V {
+				args = append(args, a.Ser())
+			}
+			parts = append(parts, e.E+"("+strings.Join(args, ",")+")")
 		case "valueOf":
 			parts = append(parts, fmt.Sprintf("valueOf#%d", e.I))
 		case "get":
